@@ -1,9 +1,11 @@
 """C05 — lane property: word-level mechanism theorems over Gen_dqstate (+ site lists) and the stress oracle."""
 import lanes
 import lanewords
+from props import c05_sync
 
 PROPERTIES_FILE = "Properties/Properties_C05.v"
-COQ_DEPS = ["Proofs/Lane_iface.vo"] + ["Model/LaneWords.vo"]
+COQ_DEPS = ["Proofs/Lane_iface.vo"] + ["Model/LaneWords.vo"] + list(c05_sync.COQ_DEPS)
+EXTRA_PROPERTIES_FILES = ["Properties/Properties_C05_sync.v"]
 GEN_MODULES = ["Gen_dqstate", "Gen_lanesites", "Gen_once"]
 LEVEL = "proof"
 TRUSTED = [
@@ -15,13 +17,18 @@ TRUSTED = [
 TRUSTED += ["word-transition conformance (lib/lanewords.py, Model/LaneWords.v): every dq_state compare-and-swap attempt, single atomic "
             "operation and give-up recorded in the stress runs is judged against the generated Gen_dqstate body of its source line "
             "(parameter domains of lib/lanewords.py param_domain are trusted); it ties Gen_dqstate to the running code, it does not judge the property"]
+GEN_MODULES = GEN_MODULES + [m for m in c05_sync.GEN_MODULES if m not in GEN_MODULES]
+TRUSTED += ["synchronous hand-off part (Properties_C05_sync.v): " + t for t in c05_sync.TRUSTED]
 ASSUMPTIONS = ["the stress oracle explores the schedules the OS and the perturbation hook produce; absence of a failure there is not a proof"]
 
 
 def correspond(ctx):
     return lanes.merge([lanes.run_part("lanes", lambda c: lanes.run(c, "C05"), ctx),
-                        lanes.run_part("words", lambda c: lanewords.run(c, "C05"), ctx)])
+                        lanes.run_part("words", lambda c: lanewords.run(c, "C05"), ctx),
+                        lanes.run_part("sync", c05_sync.correspond, ctx)])
 
 
 def replay(ctx, obj):
-    return lanes.replay(ctx, obj)
+    return lanes.replay_parts(ctx, obj, {"lanes": lanes.replay, "sync": c05_sync.replay})
+
+ASSUMPTIONS += list(c05_sync.ASSUMPTIONS)
